@@ -101,6 +101,12 @@ def units(tier, seed):
                 k += 1
                 descs.append(dict(engines=list(eng), gens=gens, obj=objs[k % 5], maximize=mx, Mh=3, seed=s, kelites=1 + k % 2, pmut=(1.0, 0.5)[(k // 2) % 2], observing_gsc=bool((k // 3) % 2),
                                   sprout={"kind": ("simple", "nbc")[(k // 4) % 2], "L": 2}, hib=bool(k % 5 == 0)))
+    # very small populations: (1+1) and (2+k) SEA
+    for eng in [e for e in shapes if all(v in ("SEA", "SEAX", "GA", "SEAA") for v in e)]:
+        for mx in (False, True):
+            for pop in (1, 2):
+                k += 1
+                descs.append(dict(engines=list(eng), gens=3, obj=objs[k % 5], maximize=mx, Mh=3, seed=s, kelites=1 + k % 2, pop=pop, pmut=(1.0, 0.5)[k % 2], sprout={"kind": "simple", "L": 2}))
     # objective undefined (NaN) on part of the box: NaN ranks worst, the best *number* must not be lost
     for eng in [e for e in shapes if not any(v.startswith("CMA") or v == "LOC" for v in e)][::2]:
         for mx in (False, True):
